@@ -46,6 +46,7 @@ func C04(c *core.Ctx) {
 	c.Sample(map[string]string{"rule": "R3/R4", "reference": variantRef, "query": "ATGCCTAAATTA", "annotation": "geneA 1..9 (+), geneR 12..7 (-)", "specified": "nuc:C6T mentioned; no aa (CCT=P)"})
 	c04Partition(c)
 	c04Constructed(c, tabs)
+	c04AmbiguousReference(c, tabs)
 }
 
 // c04Constructed: regions as built by RegionsFromGFF / RegionsFromGenbank from each annotation layout are fed to
@@ -450,7 +451,7 @@ func c04Partition(c *core.Ctx) {
 }
 
 func C05(c *core.Ctx) {
-	c.Explanation("C05: variants.GetVariantsPair (getIndelsPair with the offset tables of GetMSAOffsets) is interpreted on the bounded family of gapped pairs of C04 - every deletion of length 1..3 at every position of a 12-base reference (including those touching the first and last base), one insertion of length 1..2 after every position 0..12, two insertions at all pairs of positions, columns that are gaps in both rows before, inside and after insertions, insertion adjacent to a deletion or a SNP - against an independent specification: ins:P:L with P = number of reference bases to the left, del:P:L with P = first deleted reference base, one record per maximal run computed after removing both-gap columns, deletions touching either end not reported. The soft-gap code used by pkg/variants equals the encoding table's.")
+	c.Explanation("C05: variants.GetVariantsPair (getIndelsPair with the offset tables of GetMSAOffsets) is interpreted on the bounded family of gapped pairs of C04 - every deletion of length 1..3 at every position of a 12-base reference (including those touching the first and last base), one insertion of length 1..2 after every position 0..12, two insertions at all pairs of positions, columns that are gaps in both rows before, inside and after insertions, insertion adjacent to a deletion or a SNP - against an independent specification: ins:P:L with P = number of reference bases to the left, one record per maximal run of columns without a reference base (both-gap columns removed first); del:P:L with P = first deleted reference base, one record per maximal run of consecutive reference positions absent from the query (bases the query inserts between two deleted bases do not split the run - the statement speaks of reference bases P..P+L-1 in ungapped reference coordinates; until round 9 the specification split such a run, which no family member showed); deletions touching either end not reported. Layouts: deletion-insertion-deletion without an aligned base in between, both-gap columns added inside insertions of two and three bases. The soft-gap code used by pkg/variants equals the encoding table's.")
 	ev0 := newEval(c)
 	tabs := extractTables(c, ev0, "R0")
 	if !tabs.OK {
@@ -467,7 +468,8 @@ func C05(c *core.Ctx) {
 	c.Sample(map[string]string{"rule": "R1", "reference_row": "ATG-CCCAA--ATTA", "query_row": "ATGGCCCAAGTATTA", "specified": "ins:3:1, ins:8:2"})
 	// both-gap columns never matter: the same pair with extra columns gives the same list
 	var bad []string
-	base := []pairCase{{"ATG-CCCAAATTA", "ATGGCCCAAATTA", ""}, {"ATGCCCAAATTA", "ATG---AAATTA", ""}, {"ATGCC-CAAA-TTA", "ATGCCGCAAAGTTA", ""}}
+	base := []pairCase{{"ATG-CCCAAATTA", "ATGGCCCAAATTA", ""}, {"ATGCCCAAATTA", "ATG---AAATTA", ""}, {"ATGCC-CAAA-TTA", "ATGCCGCAAAGTTA", ""},
+		{"ATG--CCCAAATTA", "ATGGTCCCAAATTA", ""}, {"ATGCCC---AAATTA", "ATGCCCGTGAAATTA", ""}, {"ATGC--CCAAATTA", "ATG-GT-CAAATTA", ""}} // incl. columns added INSIDE an insertion of two or three bases
 	for _, pc := range base {
 		ref0, err := evalVariantsPair(c, tabs, pc.ref, pc.qry, variantRegionSets()[0])
 		if err != nil {
@@ -868,4 +870,62 @@ func checkFastaWorkerStateless(c *core.Ctx, tabs *Tables, rule string) {
 	}
 	c.Count("fasta_worker_batches", n)
 	c.Ob(key, len(bad) == 0 && n > 0, fasW.Pos(), "%s", first(bad, 2))
+}
+
+// c04AmbiguousReference: a reference codon that contains an ambiguity code and has no single translation (ARA: K or R)
+// has no R to put in an aa: record. Either the annotation is refused for that reference (what the strict translation of
+// the GFF path does), or no aa: record is ever reported for that codon - never a record whose reference residue is a
+// placeholder.
+func c04AmbiguousReference(c *core.Ctx, tabs *Tables) {
+	rg := c.LookupFunc("pkg/variants", "RegionsFromGFF")
+	key := "R5/ambiguous-reference-codon/no-aa-record-without-a-reference-residue"
+	if rg == nil {
+		c.Und(key, token.NoPos, "UNRESOLVED variants.RegionsFromGFF")
+		return
+	}
+	A := map[string]string{"ID": "c1", "Name": "g1"}
+	var bad []string
+	n := 0
+	for _, tc := range []struct {
+		strand     string
+		start, end int
+		at         int // 0-based position given the code
+		code       byte
+	}{{"+", 1, 9, 7, 'R'}, {"+", 1, 9, 6, 'M'}, {"-", 4, 15, 7, 'Y'}} {
+		ref := []byte(annoRef)
+		ref[tc.at] = tc.code
+		ev := newEval(c)
+		rv, err := ev.CallFunc(rg, mkGFF(c, []*eval.StructVal{mkGFFFeature(c, "CDS", int64(tc.start), int64(tc.end), tc.strand, 0, A)}), eval.S(string(ref)))
+		if err != nil {
+			if strings.Contains(err.Error(), "panic") || strings.Contains(err.Error(), "out of range") {
+				continue // refused
+			}
+			c.Und(key, rg.Pos(), "cannot evaluate RegionsFromGFF on a reference with %c at %d: %v", tc.code, tc.at+1, err)
+			return
+		}
+		t, ok := rv.(eval.Tuple)
+		if !ok || len(t) != 3 {
+			c.Und(key, rg.Pos(), "unexpected result of RegionsFromGFF")
+			return
+		}
+		if _, isErr := t[2].(eval.ErrVal); isErr {
+			continue // refused
+		}
+		// accepted: the codon with the code is residue k of the gene; resolve the code in the query both ways
+		for _, alt := range oracle.Expand(tc.code) {
+			q := append([]byte{}, ref...)
+			q[tc.at] = alt
+			n++
+			got, err := evalVariantsPairWith(c, tabs, string(ref), string(q), nil, []eval.Value{t[0], t[1]})
+			if err != nil {
+				c.Und(key, rg.Pos(), "cannot evaluate GetVariantsPair: %v", err)
+				return
+			}
+			for _, a := range got.aas {
+				bad = append(bad, fmt.Sprintf("reference %s (CDS %d..%d %s), query with %c at %d: %s is reported, but the reference codon has no single translation", ref, tc.start, tc.end, tc.strand, alt, tc.at+1, a))
+			}
+		}
+	}
+	c.Count("ambiguous_reference_pairs_evaluated", n)
+	c.Ob(key, len(bad) == 0, funcPos(c, "pkg/variants", "CDSRegion2fromGFF"), "%s", first(bad, 3))
 }
